@@ -39,13 +39,13 @@ from vlib import Result, enc_list, f2b, b2f, Toks, close
 PROP = 'C20'
 META = {
     'level_text': 'Lean 4 theorems about an executable model of the save/load layers (npz archive = identity on float arrays, load error on a saved None; toDict/fromDict = tables of (key, slot, optional) lines; JSON = ndarray.tolist / np.array) whose tables are EXTRACTED from the running code on every run: key coverage (every key read is written into the same slot; the 16 histories, per-phase PBM data / PSD / bounds / sizes / aspect-ratio table, diffusion t, x and recorded arrays are written and read) by `decide` over the generated tables; round trip load(save s) = ok s\' with every observable equal for every state, any number of distinct phase names and any array contents (keys of different phases cannot collide: prefix-freeness of the generated key prefixes); a diffusion file loads whatever the recording options (after the repair in known_findings.txt; the unrepaired table is proved to fail); the recorded size-distribution history is proved NOT to survive (finding); every untrained surrogate getter falls through to the thermodynamics method of the same name, unchanged arguments and result (`decide` over the recorded table) and hands EVERY argument of the caller on: Python call binding of the forwarding line is modelled (KawinV.Forward: getter signature with *args/**kwargs -> forwarded call -> thermodynamics signature), `untrained_forwards_all_arguments` decides on the regenerated rows that nothing is dropped or renamed and that the canonical calls (all keywords, each keyword alone, all positional, mixed) deliver every argument under its own name, `forward_faithful_partial` / `untrained_getters_hand_on_every_keyword` prove it for EVERY call with distinct keywords whose positional arguments are for the getter own parameters (a dropped phase and the pre-e476a9c keyword-then-*args line are proved to fail on concrete calls); fromJson(toJson d) = d for well-formed arrays of any rank. HISTORIES: a process = live model objects + a file store (name -> contents, `npzName` = the .npz suffix rule); `files_after_history` / `load_returns_last_save` (+ `precip_`/`diff_` instances over the generated tables): for EVERY sequence of solve / save / load calls on any number of models and file names, load(f) into a fresh model returns every observable of the saved model as it was at the moment of the LAST save to f (specification `lastSaved` read off the history backwards); the variant with a read cache that save does not invalidate is proved to return the first save point (`cached_load_returns_earlier_save_point`). SURROGATE FITTING STATE (KawinV.SurrogateFit: shared kernel settings, per quantity stored data and fitted kernel = what the kernel constructor received, fixed refit order of fromJson; hooks for what `_createInput` does to the settings and what `_fit` does to the training rows, identity in the code): `rebuild_equals_original` (every history of trainings / getter calls, all quantities, any order), `prediction_independent_of_order` / `prediction_as_if_trained_alone`, `settings_const`, `fit_uses_every_training_point`, for every hook that leaves the settings alone; witnesses `flip_rebuilt_differs`, `flip_depends_on_order` (a one-axis input switches normalize off in the shared settings), `filter_drops_training_points` (absolute-tolerance filter before the fit).',
-    'level_note': 'Trusted: Lean kernel + Mathlib (axioms propext/Classical.choice/Quot.sound). The tables are what the recording run observed on marker data for a 2-phase and a 3-phase model (data-dependent branches of toDict/fromDict other than "slot is None"/"key missing" would not be seen; none exist today); NumPy savez/load, zip compression, dtype handling, json printing/parsing of numbers (repr round trip) are trusted and only compared on this run\'s cases. MONITORED (oracle only, SciPy RBFInterpolator): a trained surrogate reproduces its training data at the training points; a surrogate rebuilt from its file gives the same predictions. The history and fitting-state models are tied to the code on every run (same histories through the driver: outcome and every slot of every load; normalize flag of kernelKwargs after every call, per quantity kernel present / fitted normalised / node count for the original and the rebuilt surrogate); what `solve` does to a model and what SciPy's interpolator computes are not modelled (a solve is `any new state`, a kernel is `what its constructor received`). Continuing a run after a reload is outside the statement and recorded as a finding (histories do continue loaded models: whatever state they reach must come back from the next save/load). This kawin version has no recording interval, so "recording options" are on / off / switched off / data removed.',
+    'level_note': 'Trusted: Lean kernel + Mathlib (axioms propext/Classical.choice/Quot.sound). The tables are what the recording run observed on marker data for a 2-phase and a 3-phase model (data-dependent branches of toDict/fromDict other than "slot is None"/"key missing" would not be seen; none exist today); NumPy savez/load, zip compression, dtype handling, json printing/parsing of numbers (repr round trip) are trusted and only compared on this run\'s cases. MONITORED (oracle only, SciPy RBFInterpolator): a trained surrogate reproduces its training data at the training points; a surrogate rebuilt from its file gives the same predictions. The history and fitting-state models are tied to the code on every run (same histories through the driver: outcome and every slot of every load; normalize flag of kernelKwargs after every call, per quantity kernel present / fitted normalised / node count for the original and the rebuilt surrogate); what `solve` does to a model and what the SciPy interpolator computes are not modelled (a solve is `any new state`, a kernel is `what its constructor received`). Continuing a run after a reload is outside the statement and recorded as a finding (histories do continue loaded models: whatever state they reach must come back from the next save/load). This kawin version has no recording interval, so "recording options" are on / off / switched off / data removed.',
     'technique': 'Lean 4 proof over extracted tables (decide) + structural induction; model/implementation differential correspondence; direct save->load->compare oracle on real runs',
     'design_ref': 'DESIGN.md section 6, C20',
 }
 LEAN_MODULES = ['KawinV.Props.C20']
 MONITORED = [
-    'a trained surrogate reproduces its training data at the training points (SciPy RBFInterpolator; oracle, rtol 1e-6; closely spaced grids 1e-5..1e-2 in x, 0.1..50 K, 1..1000 J/mol, linear and log fits, single axes: the unchanged code is within 2e-10)',
+    'a trained surrogate reproduces its training data at the training points (SciPy RBFInterpolator; oracle, rtol 1e-6; closely spaced grids 1e-5..1e-2 in x, 0.1..50 K, 1..1000 J/mol, linear and log fits, single axes: the unchanged code is within 1e-9)',
     'a surrogate rebuilt from its saved JSON file gives bit-identical predictions (oracle at random query points; all training orders of 2-3 quantities with 1 and 2 input axes, rtol 1e-8 at and between the training points; Q predicted as by a surrogate trained on Q alone)',
     'StrengthModel.save/load and PopulationBalanceModel.saveRecordedPSD/loadRecordedPSD reproduce their arrays (oracle; same npz layer)',
 ]
@@ -2193,7 +2193,7 @@ QUANT = {      # quantity -> (data attribute, model attribute, short token of th
     'curvature': ('curvatureData', 'curvatureModels', 'curv'),
 }
 REFIT_ORDER = ['drivingForce', 'diffusivity', 'interfacialComposition', 'curvature']
-TRAIN_TOL = 1e-6     # the unchanged code reproduces its training data to <= 2e-10 on these grid classes (1000 grids probed): margin >= 5000
+TRAIN_TOL = 1e-6     # the unchanged code reproduces its training data to <= 1e-9 on these grid classes (about 2000 grids probed, worst 9.7e-10): margin 1000
 
 
 def make_surrogate(cls, th, kernel):
